@@ -43,6 +43,12 @@ def mapInit (lo hi : Nat) (random : Bool) : IdMap :=
     maxVal := if hi = 0 then Nng.Generated.c18IdDefaultHi else hi,
     dynVal := 0, random := random }
 
+/-- nni_id_map_fini: the table is released, the bounds, the flags AND THE ID CURSOR stay (the registered static maps
+    of the library are finalised at nng_fini and used again after the next nng_init) -/
+def mapFini (m : IdMap) : IdMap :=
+  if m.cap = 0 then m
+  else { m with entries := [], cap := 0, count := 0, load := 0, minLoad := 0, maxLoad := 0 }
+
 def rdE (es : List Entry) (i : Nat) : Entry × Bool :=
   match es[i]? with
   | some e => (e, true)
